@@ -149,7 +149,7 @@ def bad_step(ctx, org, k):
 '''
 
 
-def run_cli(case, timeout=120):
+def run_cli(case, timeout=900):
     """-> dict(exit, events) of one `python -m behave` child run of the case"""
     prog, flat, cfg = case["prog"], case["flat"], case["cfg"]
     R = Rendered(prog, flat)
